@@ -494,7 +494,13 @@ class ElementList(MutableSequence):
     def _can_add_child(self, child):
         if self.element._is_valid_child(child):
             if child.parent != self.element and child.traversal_parent != self.element:  # avoid infinite recursion
-                child.parent = self.element
+                previous = (child._parent, child._traversal_parent)
+                try:
+                    child.parent = self.element
+                except Exception:
+                    # the child has been refused: do not leave it pointing at an element that does not list it
+                    child._parent, child._traversal_parent = previous
+                    raise
             else:
                 # if validation is strict, check the child cardinality
                 if Validator.is_strict(self.element.validation_level):
